@@ -32,6 +32,12 @@ def _copy_tree(root, dst):
 def _apply(dst, edits):
     for rel, old, new in edits:
         p = os.path.join(dst, rel)
+        if old == '__NEW__':
+            # a variant may create a module (a definition moved into a new private module of the package)
+            os.makedirs(os.path.dirname(p), exist_ok=True)
+            with open(p, 'w') as f:
+                f.write(new)
+            continue
         with open(p) as f:
             s = f.read()
         if old == '__UNPARSE__':
